@@ -18,13 +18,13 @@ CLAIMS = {
                 'tuples of Element.__hash__ / Bond.__hash__ are exactly the fields the mechanism names, for all values; one round of the whole real _morgan '
                 'function hashes the same tuple for every enumeration order of the neighbour dict (degree <= 3, symbolic invariants).' + F_NOTE,
                 note='Trusted: oracles/iso.py, o01_gaps.py, o01_stereo.py, o01_families.py, RDKit as second writer. That class ties occur only between '
-                     'automorphic atoms is a statement about all graphs and not decidable by contracts (DESIGN 5). 5 defect families are known findings.' + U_NOTE,
+                     'automorphic atoms is a statement about all graphs and not decidable by contracts (DESIGN 5). 8 defect families are known findings.' + U_NOTE,
                 technique='bounded relational contract checking + symbolic execution of the real hash / refinement functions + frame analysis'),
     'C02': dict(level='exploration', engine='bounded+pysym+frames',
                 text=B_NOTE + 'write -> read comparison atom by atom under the written order for all 32 format-option subsets, injectivity over enumerated '
                 'small graphs and all stereoisomers of sampled molecules. Deductive parts: writer/reader tables mutually inverse, closure numbers 1..99, every '
                 'element symbol (T); sign translation kernel reader(writer(sign)) = sign for every neighbour order (P, shared with C12).' + F_NOTE,
-                note='Trusted: oracles/o01_stereo.py, RDKit (secondary). Traversal and closure bookkeeping for all graphs: bounded only. 3 defect families known.' + U_NOTE,
+                note='Trusted: oracles/o01_stereo.py, RDKit (secondary). Traversal and closure bookkeeping for all graphs: bounded only. 5 known findings (3 shared with C01).' + U_NOTE,
                 technique='bounded round-trip contract checking + table lemmas + symbolic sign-translation kernel + frame analysis'),
     'C03': dict(level='other', engine='pysym',
                 text='The raises-contract of the tokenizer is decided for every input string by finite-state induction: the real loop body is run on a '
@@ -33,7 +33,7 @@ CLAIMS = {
                      'reaction and CXSMILES templates against a reference reader written from the OpenSMILES subset and RDKit.',
                 note='Trusted: the tokenizer abstraction (justified by a syntactic dependency check on the current source; when the check fails the steps '
                      'count as bounded cases and only strings failing on the real function are reported), oracles/o03_refsmiles.py, RDKit as second '
-                     'opinion. 29 reader defect families are recorded as known findings.' + U_NOTE,
+                     'opinion. 47 reader defect families (keyed reason / context / outcome) are recorded as known findings, 4 were repaired.' + U_NOTE,
                 technique='inductive invariant by abstract-state fixpoint over the real loop body (+ bounded differential reading)'),
     'C04': dict(level='other', engine='pysym+tables+frames',
                 text='calc_implicit / check_implicit are decided for EVERY element (118), charge -4..+4, radical flag and EVERY multiset of neighbour bonds: '
@@ -67,14 +67,14 @@ CLAIMS = {
                 '_compile_query on every small pattern, lazy_product against itertools.product. Deductive (P): <, <=, >, >=, is_substructure, is_equal are '
                 'defined from mapping existence for all size pairs.' + F_NOTE,
                 note='Trusted: oracles/o07_ref.py (cross-checked against the brute-force enumerator every run). Completeness of the DFS matcher for all graph '
-                     'pairs is not within reach of contracts here (DESIGN 5). 4 known findings.' + U_NOTE,
+                     'pairs is not within reach of contracts here (DESIGN 5). 5 known findings, 2 repaired.' + U_NOTE,
                 technique='bounded contract checking against an exhaustive reference enumerator + symbolic operator lemmas + frame analysis'),
     'C08': dict(level='proof', engine='pysym',
                 text='The real __eq__ of QueryElement, AnyElement, ListElement, AnyMetal, QueryBond and Bond are executed on proxy attribute values (symbolic '
                      'atomic numbers on both sides, symbolic subsets for set-valued query attributes) and every path is discharged against an independently '
                      'written predicate; the query setters accept exactly the documented ranges (T). SMARTS parsing and matching on molecules are a bounded stand-in.',
                 note='Trusted: CPython, z3, pysym proxies, reference non-metal list; assumption A-ring (ring-size sets used only through '
-                     'membership/disjointness). calc_labels and SMARTS text are covered by the bounded part (checks/b08.py). 13 known findings.' + U_NOTE,
+                     'membership/disjointness). calc_labels and SMARTS text are covered by the bounded part (checks/b08.py). 33 known findings (reader exception sites x input class and 5 others), 4 repaired.' + U_NOTE,
                 technique='symbolic execution of the real predicates with per-path SMT obligations (+ bounded SMARTS enumeration)'),
     'C09': dict(level='proof', engine='pysym+cyx+frames',
                 text='Per atom, bond and closure: the words built by the real regions of _cython_compiled_structure/_cython_compiled_query (cut from the '
@@ -92,14 +92,14 @@ CLAIMS = {
                      '0..255; float16 exhaustively over all finite half patterns. The 4200 published packs and corpus round trips through the real wrappers are '
                      'the bounded part.' + F_NOTE,
                 note='Trusted: the syntactic Cython translation and its C runtime (DESIGN 1.4), CPython, z3/cvc5, zlib. Traversal agreement of encoder and '
-                     'decoder for arbitrary graphs is shape-bounded (enumerated shapes), composition of the lemmas is by hand.' + U_NOTE,
+                     'decoder for arbitrary graphs is shape-bounded (enumerated shapes), composition of the lemmas is by hand. 1 known finding (cis/trans label at an atom with two double bonds), 2 repaired.' + U_NOTE,
                 technique='symbolic execution of the de-cythonised codec (whole function + inductive region lemmas) with per-path SMT obligations'),
     'C11': dict(level='exploration', engine='bounded+tables',
                 text=B_NOTE + 'write -> read record equality for five writer/reader pairs (default and non-default writer / reader options, every reading '
                 'entry point, path / file / buffer inputs), corrupted multi-record files at every line and column, index access, repository test files, '
                 'RDKit-written molblocks and records re-spelled the way other programs write them. T: V2000 charge code tables mutually inverse.',
                 note='Trusted: RDKit molblock writer/reader, plane-geometry oracle, oracles/o11_*. Fixed-column text parsing is outside the SMT engines '
-                     '(string theories undecided, DESIGN 5). 15 reader defect families are known findings, 4 repaired.' + U_NOTE,
+                     '(string theories undecided, DESIGN 5). 16 known findings (reader crash families on damaged records, index access, MRV escaping), 4 repaired.' + U_NOTE,
                 technique='bounded round-trip and fault-injection contract checking (+ table lemma)'),
     'C12': dict(level='proof', engine='pysym+frames',
                 text='The two permutation tables are checked key by key against permutation parity / single-end exchange; the three sign translators are '
@@ -118,7 +118,7 @@ CLAIMS = {
                      'abstract interpretation with listed assumed frame facts, not an SMT proof; five mutator groups are outside its reach (listed in the evidence).',
                 note='Trusted: frames/engine.py (abstract interpreter), attribute-name based location classification, the assumed frame facts in '
                      'contracts/cache.py (order-8 class preserved by aromatisation/resonance, labels preserved by renaming/union, terminal hydrogens lie on no '
-                     'ring, changed-set guards). Hydrogen recalculation is covered by the bounded histories only.' + U_NOTE,
+                     'ring, changed-set guards). Hydrogen recalculation is covered by the bounded histories only. 8 known findings, 10 repaired.' + U_NOTE,
                 technique='typestate / frame analysis with ghost write-sets over the AST (+ SMT lemma, + bounded edit histories)'),
     'C14': dict(level='exploration', engine='bounded+frames',
                 text=B_NOTE + 'conservation (heavy atoms, charge, hydrogens), validity, idempotence, explicify/implicify inverse, renumbering equivariance on '
@@ -126,7 +126,7 @@ CLAIMS = {
                 '(fix_tautomers, keep_kekule, keep_charge ...); every rule on its own instantiated pattern and on two geminal instances sharing the wildcard '
                 'atom under foreign numbering; the documented input-output pairs of the repository test table.' + F_NOTE,
                 note='Trusted: oracles/o14_*.py (rule instantiation). Rule-driven rewriting through the matcher: no SMT obligation is within reach (DESIGN 5). '
-                     '18 rule / resonance defect families are known findings.' + U_NOTE,
+                     '25 rule / resonance / tautomer defect families are known findings.' + U_NOTE,
                 technique='bounded relational contract checking (conservation, idempotence, equivariance) + frame analysis'),
     'C15': dict(level='exploration', engine='bounded+tables+pysym',
                 text=B_NOTE + 'role-order independence for 11 format specs, SMILES round trip of roles (8 written forms, reader options), exact dynamic labels '
